@@ -105,6 +105,7 @@ type GhostDecl struct {
 // IfaceContract: assumed contract for an interface method.
 type PredDecl struct {
 	Pkg, Name, Body, Pos string
+	Params []string
 }
 
 type ContractSet struct {
@@ -186,7 +187,16 @@ func (cs *ContractSet) parseFile(fset *token.FileSet, pkgPath string, f *ast.Fil
 				continue
 			}
 			name := strings.TrimSpace(parts[0])
-			cs.Preds[contractKey(pkgPath, name)] = &PredDecl{pkgPath, name, strings.TrimSpace(parts[1]), ln.pos}
+			var params []string
+			if i := strings.Index(name, "("); i >= 0 {
+				for _, pn := range strings.Split(strings.TrimSuffix(name[i+1:], ")"), ",") {
+					if pn = strings.TrimSpace(pn); pn != "" {
+						params = append(params, pn)
+					}
+				}
+				name = name[:i]
+			}
+			cs.Preds[contractKey(pkgPath, name)] = &PredDecl{Pkg: pkgPath, Name: name, Body: strings.TrimSpace(parts[1]), Pos: ln.pos, Params: params}
 			cur, curLoop, curLemma = nil, nil, nil
 			lastPred = cs.Preds[contractKey(pkgPath, name)]
 			continue
